@@ -17,7 +17,7 @@
      reg Z a      = Z^T Z + a I,     qf P x = x P x^T,     maskrow m x = x .* m
      x_env env i  = isf Xtr *: row i Xte,   x_struc env s = isf Xtr *: row s (avg Mte *m Xte). *)
 From mathcomp Require Import all_ssreflect all_algebra.
-From Verif Require Import MExp MExpMx Rigidity RigidityListP RigidityP.
+From Verif Require Import MExp MExpMx Rigidity RigidityListP RigidityP RigidityExt RigidityExtP.
 Import GRing.Theory Num.Theory.
 Close Scope float_scope.
 Local Open Scope ring_scope.
@@ -153,3 +153,103 @@ Example C20_nonvacuous :
         row ord0 (e_Xte (tiny_env F) 1 1) != 0
       & (eval_mx (tiny_env F) (lpr_prog 1 1 1)) ord0 ord0 = 2%:R].
 Proof. exact tiny_env_ok. Qed.
+
+(* ======================================================================================
+   Round 3: the rank_diff clause, and the zero-denominator characterisation.
+   Model/RigidityExt.v: [rank_of_sv_g ops dim sv] is numpy's matrix_rank rule
+     #{ s in sv | s > max(sv) * dim * eps }   written once over a record of operations;
+   [float_ops] is its binary64 instance (eps = 2^-52), [F_ops e] its instance over a real
+   closed field with eps = e.  The SVD that matrix_rank computes is an oracle held in the
+   variables e_U (d x d), e_S (d x 1), e_Vt (d x d); [svd_hyp env d N S] says that the three
+   residual programs  U diag(s) Vt - Xprime,  U^T U - I,  Vt Vt^T - I  evaluate to 0
+   (the run evaluates the same programs in binary64 on the model's Xprime).
+   [svl env d] is the list of the entries of e_S. *)
+
+(* (the binary64 rule used since round 1, Rigidity.rank_diff_model, is [rank_diff_g float_ops]
+   by conversion: RigidityExtP.rank_diff_generic; the round-3 verdicts evaluate
+   [rank_diff_g float_ops] itself) *)
+
+(* rank of a decomposition with invertible outer factors = number of non-zero values *)
+Theorem C20_rank_of_decomposition :
+  forall (F : rcfType) (d : nat) (U V : 'M[F]_d) (s : 'rV[F]_d),
+    U \in unitmx -> V \in unitmx ->
+    \rank (U *m diag_mx s *m V) = #|[pred i | s ord0 i != 0]|.
+Proof. exact rank_svd. Qed.
+Print Assumptions C20_rank_of_decomposition.
+
+(* the reported rank difference is the feature dimension minus the rank of the regularised
+   covariance, whenever the threshold separates the non-zero singular values from 0 *)
+Theorem C20_rank_diff :
+  forall (F : rcfType) (d N S : nat) (e : F) (env : env_mx F),
+    svd_hyp env d N S -> 0 <= e ->
+    (forall i, e_S env d i ord0 != 0 -> sv_tol (F_ops e) d (svl env d) < e_S env d i ord0) ->
+    rank_diff_g (F_ops e) d (svl env d)
+    = (d - \rank (reg (Xstruc d N S env) (e_alpha env)))%N.
+Proof. exact rig_rank_diff. Qed.
+Print Assumptions C20_rank_diff.
+
+(* ... and in every case it is the dimension minus the rank of the decomposition with the
+   singular values at or below the threshold set to zero *)
+Theorem C20_rank_diff_truncated :
+  forall (F : rcfType) (d N S : nat) (e : F) (env : env_mx F),
+    svd_hyp env d N S -> 0 <= e ->
+    rank_diff_g (F_ops e) d (svl env d)
+    = (d - \rank (e_U env d *m diag_mx (trunc_sv d e env) *m e_Vt env d))%N.
+Proof. exact rig_rank_diff_trunc. Qed.
+Print Assumptions C20_rank_diff_truncated.
+
+(* alpha > 0: the regularised covariance has full rank (exact difference 0); the reported
+   value counts the singular values at or below the threshold, and is 0 when the threshold
+   separates *)
+Theorem C20_rank_diff_alpha_pos :
+  forall (F : rcfType) (d N S : nat) (e : F) (env : env_mx F),
+    0 < e_alpha env ->
+    [/\ \rank (reg (Xstruc d N S env) (e_alpha env)) = d,
+        rank_diff_g (F_ops e) d (svl env d)
+        = #|[pred i | e_S env d i ord0 <= sv_tol (F_ops e) d (svl env d)]|
+      & svd_hyp env d N S -> 0 <= e ->
+        (forall i, e_S env d i ord0 != 0 -> sv_tol (F_ops e) d (svl env d) < e_S env d i ord0) ->
+        rank_diff_g (F_ops e) d (svl env d) = 0%N].
+Proof. exact rig_rank_diff_alpha_pos. Qed.
+Print Assumptions C20_rank_diff_alpha_pos.
+
+(* alpha = 0: the rank is that of the averaged, scaled training features (Gram matrix) *)
+Theorem C20_rank_alpha_zero :
+  forall (F : rcfType) (d N S : nat) (env : env_mx F),
+    e_alpha env = 0 ->
+    \rank (reg (Xstruc d N S env) (e_alpha env)) = \rank (Xstruc d N S env).
+Proof. exact rig_rank_alpha0. Qed.
+Print Assumptions C20_rank_alpha_zero.
+
+(* the rigidity programs are the entrywise reciprocals of the denominator programs, and
+   (alpha > 0) a denominator is 0 exactly when the (masked) test row / structure mean is the
+   zero row: then and only then the implementation returns 1/0 = +inf *)
+Theorem C20_denominator_zero :
+  forall (F : rcfType) (d N S Nt St : nat) (env : env_mx F),
+    0 < e_alpha env -> rig_hyp env d N S -> 0 < sf2 (e_Xtr env N d) ->
+    [/\ forall i, ((eval_mx env (lpr_den_prog d N Nt)) i ord0 == 0)
+                  = (row i (e_Xte env Nt d) == 0),
+        forall i, ((eval_mx env (lcpr_den_prog d N Nt)) i ord0 == 0)
+                  = (maskrow (e_mask env d) (row i (e_Xte env Nt d)) == 0)
+      & forall s, ((eval_mx env (cpr_den_prog d N Nt St)) s ord0 == 0)
+                  = (maskrow (e_mask env d) (row s (avg (e_Mte env St Nt) *m e_Xte env Nt d)) == 0)].
+Proof. exact rig_denominator_zero. Qed.
+Print Assumptions C20_denominator_zero.
+
+Theorem C20_programs_are_reciprocals :
+  forall d N Nt St : nat,
+    [/\ lpr_prog d N Nt = MMap Frecip t0 (lpr_den_prog d N Nt),
+        lcpr_prog d N Nt = MMap Frecip t0 (lcpr_den_prog d N Nt)
+      & cpr_prog d N Nt St = MMap Frecip t0 (cpr_den_prog d N Nt St)].
+Proof. exact (fun d N Nt St => And3 (lpr_prog_den d N Nt) (lcpr_prog_den d N Nt) (cpr_prog_den d N Nt St)). Qed.
+Print Assumptions C20_programs_are_reciprocals.
+
+(* non-vacuity of the rank theorems: tiny_env with the decomposition 2 = 1 * 2 * 1 and
+   eps = 1/2 (threshold 1 < 2) meets svd_hyp and the separation hypothesis; rank_diff = 0 *)
+Example C20_nonvacuous_rank :
+  forall F : rcfType,
+    [/\ svd_hyp (tiny_env_x F) 1 1 1, 0 < e_alpha (tiny_env_x F),
+        forall i, e_S (tiny_env_x F) 1 i ord0 != 0 ->
+                  sv_tol (F_ops (2%:R^-1 : F)) 1 (svl (tiny_env_x F) 1) < e_S (tiny_env_x F) 1 i ord0
+      & rank_diff_g (F_ops (2%:R^-1 : F)) 1 (svl (tiny_env_x F) 1) = 0%N].
+Proof. exact tiny_env_x_ok. Qed.
